@@ -72,6 +72,18 @@ pub fn boot_qs(cfg: &NodeCfg, ct: Duration) -> Result<QueryServer, OperationErro
     Ok(qs)
 }
 
+/// Open the database WITHOUT the start-up migrations: reads see exactly what is on disk.
+pub fn open_raw(cfg: &NodeCfg, ct: Duration) -> Result<QueryServer, OperationError> {
+    let schema = Schema::new()?;
+    let idxmeta = {
+        let s = schema.write();
+        s.reload_idxmeta()
+    };
+    let becfg = BackendConfig::new(cfg.path.as_deref(), cfg.pool, FsType::Generic, None);
+    let be = Backend::new(becfg, idxmeta, false)?;
+    QueryServer::new(be, schema, DOMAIN_NAME.to_string(), ct)
+}
+
 pub struct Idm {
     pub idms: IdmServer,
     pub delayed: IdmServerDelayed,
